@@ -29,6 +29,16 @@ def main():
         s = re.sub(r"<!-- SEEDED:BEGIN -->.*<!-- SEEDED:END -->", "<!-- SEEDED:BEGIN -->" + table.replace("\\", "\\\\") + "<!-- SEEDED:END -->", s, flags=re.S)
     else:
         s = s.replace("SEEDED_TABLE", "<!-- SEEDED:BEGIN -->" + table + "<!-- SEEDED:END -->")
+    # per-property rule inventory from the evidence files
+    lines = ["\n\n| property | level | obligations | rule instances on the current tree (rule id × count) |\n|---|---|---|---|"]
+    for f in sorted(glob.glob(os.path.join(VERIF, "evidence", "C*.json"))):
+        e = json.load(open(f))
+        ri = e["coverage"].get("rule_instances", {})
+        items = ["%s×%d" % (k, v) for k, v in ri.items() if not k.startswith("floor:") and k not in ("functions_analysed",) and isinstance(v, int)]
+        lines.append("| %s | %s | %d | %s |" % (e["property_id"], e["level"], e["coverage"]["obligations"], ", ".join(items)[:900]))
+    inv = "\n".join(lines) + "\n"
+    if "<!-- RULES:BEGIN -->" in s:
+        s = re.sub(r"<!-- RULES:BEGIN -->.*<!-- RULES:END -->", "<!-- RULES:BEGIN -->" + inv.replace("\\", "\\\\") + "<!-- RULES:END -->", s, flags=re.S)
     open(p, "w").write(s)
     print("seeded table: %d rows, %d initially missed" % (n, miss))
 
